@@ -255,3 +255,19 @@ def resolve_local(fn: ast.AST, expr: ast.AST | None, depth: int = 4) -> ast.AST 
         expr = defs[expr.id]
         depth -= 1
     return expr
+
+
+def in_progress_result_names(fn: ast.AST) -> set[str]:
+    """Local dicts that receive ``X[<field name>] = <value>`` in a reader (the in-progress result) - not the size bookkeeping, whose stored value is
+    computed from stream positions."""
+    out: set[str] = set()
+    for st in ast.walk(fn):
+        if isinstance(st, ast.Assign) and len(st.targets) == 1 and isinstance(st.targets[0], ast.Subscript) and isinstance(st.targets[0].value, ast.Name):
+            sl = norm(st.targets[0].slice)
+            if "name" not in sl:
+                continue
+            v = st.value
+            positional = isinstance(v, ast.BinOp) or any(isinstance(c, ast.Call) and call_name(c) == "tell" for c in ast.walk(v))
+            if not positional:
+                out.add(st.targets[0].value.id)
+    return out
